@@ -13,7 +13,8 @@
 From Coq Require Import List NArith Bool.
 From SV Require Import Text.Str Text.Prog Text.Tokenizer.
 From SV Require Import KV.KvBase KV.KvLex KV.KvParse KV.KvSer KV.KvSym KV.KvParseProofs KV.KvRoundtrip KV.KvStrip
-  KV.KvRefine KV.KvFlags KV.KvLoop KV.KvLoopRef KV.KvLoopEquiv KV.KvLoopRoundtrip KV.KvWriter KV.KvFlagProg KV.KvWProg.
+  KV.KvRefine KV.KvFlags KV.KvLoop KV.KvLoopRef KV.KvLoopEquiv KV.KvLoopRoundtrip KV.KvWriter KV.KvFlagProg KV.KvWProg
+  KV.KvShift.
 Import ListNotations.
 
 (** The object [serialise] is called on and the document that must come back. *)
@@ -129,3 +130,7 @@ Proof.
   split; [exact ref_cfg_ok|]. split; [exact ref_esc_ok|]. split; [exact ref_pcfg_ok|]. split; [exact ref_loop_ok|].
   split; [exact ref_tables_match_ref_escfg|]. repeat split; vm_compute; reflexivity.
 Qed.
+
+(** The reference templates are sequences of writer lines ([lines_ok] of KV/KvShift.v), for both brace styles. *)
+Lemma ref_sercfg_lines_ok o : lines_ok (ref_sercfg (PEsc FName)) o = true.
+Proof. destruct o as [i [|] s]; reflexivity. Qed.
